@@ -23,6 +23,7 @@ import NumbersModel.Drv.Border
 import NumbersModel.Drv.StyleStore
 import NumbersModel.Drv.Sizes
 import NumbersModel.Drv.TablePipeline
+import NumbersModel.Drv.FormatDispatch
 
 open NumbersModel.Drv
 
@@ -58,6 +59,7 @@ def dispatch (line : String) : String :=
     | "sizes" :: rest => handleSizes rest
     | "labels" :: rest => handleLabels rest
     | "table" :: rest => handleTable rest
+    | "fmtd" :: rest => Fmtd.handleFmtd rest
     | _ => none
   match r with
   | some s => s
